@@ -9,7 +9,8 @@ use std::thread::JoinHandle;
 use std::time::Duration;
 
 use trust_runtime::debug::{
-    ControlAction, DebugBreakpoint, DebugControl, DebugStop, DebugStopReason, SourceLocation,
+    ControlAction, DebugBreakpoint, DebugControl, DebugHook, DebugStop, DebugStopReason,
+    SourceLocation,
 };
 
 use crate::engine::catch;
@@ -318,7 +319,19 @@ struct DepthBound {
     limit: u32,
     what: &'static str,
     origin: u32,
-    origin_reason: DebugStopReason,
+    /// Kind of the stop the step was issued from; `None`: issued while running (origin =
+    /// the last statement of the stepped thread that the hook saw).
+    origin_reason: Option<DebugStopReason>,
+}
+
+fn origin_text(b: &DepthBound) -> String {
+    match b.origin_reason {
+        Some(r) => format!("{} issued from a {:?} stop at call depth {}", b.what, r, b.origin),
+        None => format!(
+            "{} issued while running, when the last statement of the stepped thread seen by the hook was at call depth {},",
+            b.what, b.origin
+        ),
+    }
 }
 
 /// One hypothesis about where the run is: the position of the last stop and what must
@@ -364,6 +377,10 @@ pub struct Model<'w> {
     pub pause_origin_over_out: u32,
     pub pause_origin_shape: u32,
     pub boundary_pauses: u32,
+    /// Step commands issued while running (at a gate), and those of them (step-over/out)
+    /// issued between the hook of a call statement and the hook of the callee's first one.
+    pub running_steps: u32,
+    pub running_steps_at_call_entry: u32,
     pub reasons: BTreeMap<&'static str, u32>,
     pub commands: BTreeMap<&'static str, u32>,
 }
@@ -412,6 +429,8 @@ impl<'w> Model<'w> {
             pause_origin_over_out: 0,
             pause_origin_shape: 0,
             boundary_pauses: 0,
+            running_steps: 0,
+            running_steps_at_call_entry: 0,
             reasons: BTreeMap::new(),
             commands: BTreeMap::new(),
         }
@@ -502,7 +521,12 @@ impl<'w> Model<'w> {
     /// A stop notification arrived (`cycle`: index of the cycle in progress, known exactly
     /// from the cycle thread's counter): map it to its trace position(s) or say what is wrong.
     /// Returns the earliest possible position.
-    pub fn observe(&mut self, s: &StopRec, cycle: Option<usize>) -> Result<usize, String> {
+    pub fn observe(
+        &mut self,
+        s: &StopRec,
+        cycle: Option<usize>,
+        exact: Option<usize>,
+    ) -> Result<usize, String> {
         *self.reasons.entry(reason_name(s.reason)).or_default() += 1;
         let Some(start) = s.start else {
             return Err(format!(
@@ -511,8 +535,21 @@ impl<'w> Model<'w> {
             ));
         };
         let w = self.w;
+        // hook-level driver: the position whose hook call produced the stop is known
+        if let Some(e) = exact {
+            if w.pos.get(e).map(|p| p.start) != Some(start) {
+                return Err(format!(
+                    "stop ({:?}) reports {} but was produced by the hook call of {}",
+                    s.reason,
+                    w.describe_start(Some(start)),
+                    if e < w.pos.len() { w.describe(e) } else { format!("position {e}") }
+                ));
+            }
+        }
         let fits = |k: usize| -> bool {
-            w.pos[k].start == start && cycle.map(|c| w.pos[k].cycle == c).unwrap_or(true)
+            w.pos[k].start == start
+                && cycle.map(|c| w.pos[k].cycle == c).unwrap_or(true)
+                && exact.map(|e| k == e).unwrap_or(true)
         };
         let mut at: Vec<usize> = Vec::new();
         let mut complaint: Option<String> = None;
@@ -551,10 +588,8 @@ impl<'w> Model<'w> {
                         if let (Some(b), Some(k)) = (h.bound, got) {
                             if s.reason != DebugStopReason::Breakpoint && w.pos[k].depth > b.limit {
                                 why = Some(format!(
-                                    "{} issued from a {:?} stop at call depth {} stopped at call depth {} ({}); expected the stop at {}",
-                                    b.what,
-                                    b.origin_reason,
-                                    b.origin,
+                                    "{} stopped at call depth {} ({}); expected the stop at {}",
+                                    origin_text(&b),
                                     w.pos[k].depth,
                                     w.describe(k),
                                     w.describe(q)
@@ -589,16 +624,17 @@ impl<'w> Model<'w> {
             }
             if let Some(b) = h.bound {
                 if s.reason != DebugStopReason::Breakpoint {
-                    if let Some(k) = found.iter().find(|k| w.pos[**k].depth > b.limit) {
+                    // candidates that violate the clause are no candidates; the clause is
+                    // violated when no candidate is left
+                    let bad = found.iter().copied().find(|k| w.pos[*k].depth > b.limit);
+                    found.retain(|k| w.pos[*k].depth <= b.limit);
+                    if let (Some(k), true) = (bad, found.is_empty()) {
                         why = Some(format!(
-                            "{} issued from a {:?} stop at call depth {} stopped at call depth {} ({})",
-                            b.what,
-                            b.origin_reason,
-                            b.origin,
-                            w.pos[*k].depth,
-                            w.describe(*k)
+                            "{} stopped at call depth {} ({})",
+                            origin_text(&b),
+                            w.pos[k].depth,
+                            w.describe(k)
                         ));
-                        found.clear();
                     }
                 }
             }
@@ -721,7 +757,7 @@ impl<'w> Model<'w> {
                         limit: here.depth,
                         what: "step-over",
                         origin: here.depth,
-                        origin_reason,
+                        origin_reason: Some(origin_reason),
                     });
                     w.first_of_thread(p + 1, tt, Some(here.depth))
                         .map(|q| (q, DebugStopReason::Step))
@@ -732,7 +768,7 @@ impl<'w> Model<'w> {
                         limit,
                         what: "step-out",
                         origin: here.depth,
-                        origin_reason,
+                        origin_reason: Some(origin_reason),
                     });
                     w.first_of_thread(p + 1, tt, Some(limit))
                         .map(|q| (q, DebugStopReason::Step))
@@ -757,10 +793,10 @@ impl<'w> Model<'w> {
         self.at.clear();
     }
 
-    /// Cycle `k` (0-based) has completed without a stop since the last resume: every
-    /// hypothesis that expected a stop inside it is refuted. The cycle thread waits.
-    pub fn boundary(&mut self, k: usize) -> Result<(), String> {
-        let f = self.w.first_of_cycle(k + 1);
+    /// The run has reached the gate before trace position `f` without a stop since the last
+    /// resume: every hypothesis that expected a stop before `f` is refuted. The executing
+    /// thread waits at the gate.
+    pub fn gate(&mut self, f: usize, what: &str) -> Result<(), String> {
         let mut complaint = None;
         let mut keep = Vec::new();
         for h in &self.hyps {
@@ -768,8 +804,7 @@ impl<'w> Model<'w> {
                 Expect::Exact(Some((q, reasons))) if q < f => {
                     if complaint.is_none() {
                         complaint = Some(format!(
-                            "cycle {} completed without the stop ({:?}) expected at {}",
-                            k + 1,
+                            "{what} was reached without the stop ({:?}) expected at {}",
                             reasons,
                             self.w.describe(q)
                         ));
@@ -783,26 +818,25 @@ impl<'w> Model<'w> {
             }
         }
         if keep.is_empty() && !self.hyps.is_empty() {
-            return Err(complaint.unwrap_or_else(|| "no hypothesis left at the cycle boundary".into()));
+            return Err(complaint.unwrap_or_else(|| format!("no hypothesis left at {what}")));
         }
         self.hyps = keep;
         Ok(())
     }
 
-    /// `pause(thread)` / `pause_entry()` issued at the boundary before cycle `next` while the
-    /// thread runs: the stop comes at the first statement of (that thread in) the coming
-    /// cycles, unless a breakpoint stops another thread first. A pending step is cancelled.
-    pub fn boundary_pause(&mut self, next: usize, thread: Option<u32>, entry: bool) {
-        let f = self.w.first_of_cycle(next);
+    /// `pause(thread)` / `pause_entry()` issued at the gate before position `f` while the
+    /// program runs: the stop comes at the next statement (of that thread), unless a
+    /// breakpoint stops another thread first. A pending step is cancelled.
+    pub fn gate_pause(&mut self, f: usize, what: &str, thread: Option<u32>, entry: bool) {
         let reason = if entry {
             DebugStopReason::Entry
         } else {
             DebugStopReason::Pause
         };
         self.log.push(if entry {
-            format!("  between cycle {} and {}: pause_entry()", next, next + 1)
+            format!("  {what}: pause_entry()")
         } else {
-            format!("  between cycle {} and {}: pause({thread:?})", next, next + 1)
+            format!("  {what}: pause({thread:?})")
         });
         self.boundary_pauses += 1;
         let w = self.w;
@@ -821,10 +855,9 @@ impl<'w> Model<'w> {
         }
     }
 
-    /// `continue` at a boundary: cancels a pending pause or step.
-    pub fn boundary_continue(&mut self, next: usize) {
-        self.log
-            .push(format!("  between cycle {} and {}: continue", next, next + 1));
+    /// `continue` at a gate: cancels a pending pause or step.
+    pub fn gate_continue(&mut self, what: &str) {
+        self.log.push(format!("  {what}: continue"));
         for h in &mut self.hyps {
             h.generic = false;
             h.bound = None;
@@ -833,17 +866,46 @@ impl<'w> Model<'w> {
         }
     }
 
-    /// A step command at a boundary (while running): not predicted.
-    pub fn boundary_step(&mut self, next: usize, cmd: Resume, thread: Option<u32>) {
+    /// A step command at the gate before position `f`, while the program runs. Where it
+    /// stops is not predicted; what the property says is asserted: step-over / step-out never
+    /// stop deeper than the depth they were issued from = the depth of the last statement of
+    /// the stepped thread that the hook has seen (what `apply_action` records; when that
+    /// thread has not run yet: of the last statement of any thread). `stepped`: the thread
+    /// the command names, else the debugger's current thread.
+    pub fn gate_step(&mut self, f: usize, what: &str, cmd: Resume, stepped: Option<u32>) {
+        let w = self.w;
         self.log.push(format!(
-            "  between cycle {} and {}: {}({thread:?}) while running",
-            next,
-            next + 1,
+            "  {what}: {}({stepped:?}) while running",
             cmd.name()
         ));
+        self.running_steps += 1;
+        let own = stepped.and_then(|t| (0..f).rev().find(|k| w.pos[*k].thread == t));
+        let origin = match own {
+            Some(k) => w.pos[k].depth,
+            None if f > 0 => w.pos[f - 1].depth,
+            None => 0,
+        };
+        let bound = match cmd {
+            Resume::StepOver(_) => Some(DepthBound {
+                limit: origin,
+                what: "step-over",
+                origin,
+                origin_reason: None,
+            }),
+            Resume::StepOut(_) => Some(DepthBound {
+                limit: origin.saturating_sub(1),
+                what: "step-out",
+                origin,
+                origin_reason: None,
+            }),
+            _ => None,
+        };
+        if bound.is_some() && f < w.pos.len() && f > 0 && w.pos[f].depth > w.pos[f - 1].depth {
+            self.running_steps_at_call_entry += 1;
+        }
         for h in &mut self.hyps {
             h.generic = true;
-            h.bound = None;
+            h.bound = bound;
             h.pause_pending = false;
             h.other = None;
         }
@@ -1012,8 +1074,6 @@ pub struct UserWrite {
 pub struct ResolvedLock {
     pub bps: Vec<u32>,
     pub reaction_bps: Vec<Vec<u32>>,
-    /// Per boundary, per command (non-empty only for SetBps).
-    pub between_bps: Vec<Vec<Vec<u32>>>,
 }
 
 pub fn resolve_lock(w: &World, script: &LockScript) -> ResolvedLock {
@@ -1027,19 +1087,141 @@ pub fn resolve_lock(w: &World, script: &LockScript) -> ResolvedLock {
                 _ => Vec::new(),
             })
             .collect(),
-        between_bps: script
-            .between
-            .iter()
-            .map(|cmds| {
-                cmds.iter()
-                    .map(|c| match c {
-                        BoundaryCmd::SetBps(sels) => resolve_bps(w, sels),
-                        _ => Vec::new(),
-                    })
-                    .collect()
-            })
-            .collect(),
     }
+}
+
+/// Which machine executes the trace under the debugger.
+#[derive(Clone, Copy, Debug, PartialEq, Eq)]
+pub enum Engine {
+    /// The real runtime on its own thread (gates at cycle boundaries only).
+    Runtime,
+    /// A thread that calls `DebugControl`'s statement hook directly, once per position of the
+    /// reference trace (gates between any two hook calls; no program state).
+    Hook,
+}
+
+/// A gate: where the executing thread waits for the controller, and what is issued there.
+struct GatePlan {
+    /// First position not yet hooked.
+    f: usize,
+    what: String,
+    cmds: Vec<BoundaryCmd>,
+}
+
+/// Gates keyed by what the executing thread reports: the index of the finished cycle
+/// (runtime engine) or the position about to be hooked (hook engine).
+fn gate_plans(w: &World, script: &LockScript, engine: Engine) -> BTreeMap<usize, GatePlan> {
+    let mut out: BTreeMap<usize, GatePlan> = BTreeMap::new();
+    for (k, cmds) in script.between.iter().enumerate() {
+        if k + 1 >= w.inputs.len() {
+            break;
+        }
+        let f = w.first_of_cycle(k + 1);
+        let key = match engine {
+            Engine::Runtime => k,
+            Engine::Hook => f,
+        };
+        if engine == Engine::Hook && f >= w.pos.len() {
+            continue;
+        }
+        out.entry(key)
+            .or_insert_with(|| GatePlan {
+                f,
+                what: format!("between cycle {} and {}", k + 1, k + 2),
+                cmds: Vec::new(),
+            })
+            .cmds
+            .extend(cmds.iter().cloned());
+    }
+    if engine == Engine::Hook {
+        let entries: Vec<usize> = (1..w.pos.len())
+            .filter(|f| w.pos[*f].depth > w.pos[*f - 1].depth && w.pos[*f].cycle == w.pos[*f - 1].cycle)
+            .collect();
+        for (sel, cmds) in &script.gates {
+            let f = if sel.after_call && !entries.is_empty() {
+                entries[(sel.idx as usize * entries.len()) >> 16]
+            } else if w.pos.len() > 1 {
+                1 + ((sel.idx as usize * (w.pos.len() - 1)) >> 16)
+            } else {
+                continue;
+            };
+            out.entry(f)
+                .or_insert_with(|| GatePlan {
+                    f,
+                    what: format!(
+                        "between the hook calls of trace position {} and {} (line {} -> line {}, call depth {} -> {})",
+                        f - 1,
+                        f,
+                        w.line_of.get(&w.pos[f - 1].stmt).copied().unwrap_or(0),
+                        w.line_of.get(&w.pos[f].stmt).copied().unwrap_or(0),
+                        w.pos[f - 1].depth,
+                        w.pos[f].depth
+                    ),
+                    cmds: Vec::new(),
+                })
+                .cmds
+                .extend(cmds.iter().cloned());
+        }
+    }
+    out
+}
+
+/// The executing thread of the hook engine: one hook call per trace position, the
+/// debugger's current thread switched like the scheduler does, a gate where the script has one.
+fn spawn_hook_thread(
+    positions: Arc<Vec<super::world::Pos>>,
+    control: DebugControl,
+    gate: Arc<Barrier>,
+    shared: Arc<Shared>,
+    gates: Vec<usize>,
+    tx: Sender<DebugStop>,
+    go: Receiver<()>,
+) -> std::io::Result<JoinHandle<CycleOut>> {
+    std::thread::Builder::new()
+        .name("c17-hook".into())
+        .spawn(move || {
+            shared
+                .tid
+                .store(unsafe { libc::syscall(libc::SYS_gettid) } as i64, Ordering::SeqCst);
+            let progress = shared.clone();
+            let _done = ClearSender(control.clone(), shared);
+            let mut out = CycleOut {
+                states: Vec::new(),
+                errors: Vec::new(),
+                frames: 0,
+                panic: None,
+            };
+            gate.wait();
+            let r = catch(|| {
+                let mut hook = control.clone();
+                let mut current: Option<u32> = None;
+                let mut open = false;
+                for (i, p) in positions.iter().enumerate() {
+                    if !open && gates.contains(&i) {
+                        let _ = tx.send(DebugStop {
+                            reason: DebugStopReason::Entry,
+                            location: None,
+                            thread_id: Some(BOUNDARY_THREAD),
+                            breakpoint_generation: Some(i as u64),
+                        });
+                        if go.recv().is_err() {
+                            open = true;
+                        }
+                    }
+                    if current != Some(p.thread) {
+                        control.set_current_thread(Some(p.thread));
+                        current = Some(p.thread);
+                    }
+                    progress.cycles.store(i as u64, Ordering::SeqCst);
+                    let loc = SourceLocation::new(0, p.start, p.end);
+                    hook.on_statement(Some(&loc), p.depth);
+                }
+            });
+            if let Err(p) = r {
+                out.panic = Some(p);
+            }
+            out
+        })
 }
 
 pub fn bp_ranges(w: &World, stmts: &[u32]) -> Vec<(u32, u32)> {
@@ -1055,14 +1237,26 @@ pub fn run_lockstep(
     script: &LockScript,
     resolved: &ResolvedLock,
     writes: &BTreeMap<usize, UserWrite>,
+    engine: Engine,
 ) -> Result<Outcome, String> {
-    let mut real = match catch(|| Real::compile(&w.source)) {
-        Ok(Ok(r)) => r,
-        Ok(Err(e)) => return Ok(Outcome::Internal(format!("second compile failed: {e}"))),
-        Err(p) => return Ok(Outcome::Internal(format!("second compile panicked: {p}"))),
+    let mut real = None;
+    let control = match engine {
+        Engine::Runtime => {
+            let mut r = match catch(|| Real::compile(&w.source)) {
+                Ok(Ok(r)) => r,
+                Ok(Err(e)) => return Ok(Outcome::Internal(format!("second compile failed: {e}"))),
+                Err(p) => {
+                    return Ok(Outcome::Internal(format!("second compile panicked: {p}")))
+                }
+            };
+            let control = r.harness.runtime_mut().enable_debug();
+            let _ = r.harness.runtime_mut().ensure_background_thread_id();
+            real = Some(r);
+            control
+        }
+        Engine::Hook => DebugControl::new(),
     };
-    let control = real.harness.runtime_mut().enable_debug();
-    let _ = real.harness.runtime_mut().ensure_background_thread_id();
+    let plans = gate_plans(w, script, engine);
     let (tx, rx) = channel();
     control.set_stop_sender(tx.clone());
     let (go_tx, go_rx) = channel::<()>();
@@ -1089,17 +1283,29 @@ pub fn run_lockstep(
 
     let gate = Arc::new(Barrier::new(2));
     let shared = Shared::new();
-    let handle = match spawn_cycle_thread(
-        real,
-        Arc::new(w.decl.clone()),
-        Arc::new(w.inputs.clone()),
-        control.clone(),
-        gate.clone(),
-        shared.clone(),
-        Some((tx, go_rx)),
-    ) {
+    let spawned = match real {
+        Some(real) => spawn_cycle_thread(
+            real,
+            Arc::new(w.decl.clone()),
+            Arc::new(w.inputs.clone()),
+            control.clone(),
+            gate.clone(),
+            shared.clone(),
+            Some((tx, go_rx)),
+        ),
+        None => spawn_hook_thread(
+            Arc::new(w.pos.clone()),
+            control.clone(),
+            gate.clone(),
+            shared.clone(),
+            plans.keys().copied().collect(),
+            tx,
+            go_rx,
+        ),
+    };
+    let handle = match spawned {
         Ok(h) => h,
-        Err(e) => return Ok(Outcome::Internal(format!("cannot spawn the cycle thread: {e}"))),
+        Err(e) => return Ok(Outcome::Internal(format!("cannot spawn the executing thread: {e}"))),
     };
     gate.wait();
 
@@ -1111,44 +1317,52 @@ pub fn run_lockstep(
     loop {
         match await_event(&rx, &control, &shared) {
             Event::Stop(stop) if boundary_of(&stop).is_some() => {
-                // cycle k is complete, the cycle thread waits for the go
-                let k = boundary_of(&stop).unwrap_or(0);
+                // the executing thread waits at a gate (runtime engine: a cycle is complete)
+                let key = boundary_of(&stop).unwrap_or(0);
                 if finalised {
-                    continue; // the gate is open
+                    continue; // the gates are open
                 }
-                if let Err(e) = model.boundary(k) {
+                let (f, what, cmds) = match plans.get(&key) {
+                    Some(p) => (p.f, p.what.clone(), p.cmds.clone()),
+                    None => (
+                        w.first_of_cycle(key + 1),
+                        format!("the end of cycle {}", key + 1),
+                        Vec::new(),
+                    ),
+                };
+                if let Err(e) = model.gate(f, &what) {
                     verdict = Err(e);
                     break;
                 }
-                if let Some(cmds) = script.between.get(k) {
-                    for (ci, c) in cmds.iter().enumerate() {
-                        match c {
-                            BoundaryCmd::Pause(sel) => {
-                                let t = resolve_sel(w, *sel, None);
-                                model.boundary_pause(k + 1, t, false);
-                                let _ = control.apply_action(ControlAction::Pause(t));
-                            }
-                            BoundaryCmd::Entry => {
-                                model.boundary_pause(k + 1, None, true);
-                                control.pause_entry();
-                            }
-                            BoundaryCmd::SetBps(_) => {
-                                let b = set_bps(&control, w, &resolved.between_bps[k][ci]);
-                                model.set_breakpoints(b);
-                            }
-                            BoundaryCmd::ClearBps => {
-                                control.clear_breakpoints();
-                                model.set_breakpoints(Vec::new());
-                            }
-                            BoundaryCmd::Continue => {
-                                model.boundary_continue(k + 1);
-                                let _ = control.apply_action(ControlAction::Continue);
-                            }
-                            BoundaryCmd::Step(r) => {
-                                let t = r.sel().and_then(|s| resolve_sel(w, s, None));
-                                model.boundary_step(k + 1, *r, t);
-                                let _ = control.apply_action(action_of(*r, t));
-                            }
+                for c in &cmds {
+                    // the thread a command without thread argument falls back to
+                    let current = control.current_thread();
+                    match c {
+                        BoundaryCmd::Pause(sel) => {
+                            let t = resolve_sel(w, *sel, None);
+                            model.gate_pause(f, &what, t, false);
+                            let _ = control.apply_action(ControlAction::Pause(t));
+                        }
+                        BoundaryCmd::Entry => {
+                            model.gate_pause(f, &what, None, true);
+                            control.pause_entry();
+                        }
+                        BoundaryCmd::SetBps(sels) => {
+                            let b = set_bps(&control, w, &resolve_bps(w, sels));
+                            model.set_breakpoints(b);
+                        }
+                        BoundaryCmd::ClearBps => {
+                            control.clear_breakpoints();
+                            model.set_breakpoints(Vec::new());
+                        }
+                        BoundaryCmd::Continue => {
+                            model.gate_continue(&what);
+                            let _ = control.apply_action(ControlAction::Continue);
+                        }
+                        BoundaryCmd::Step(r) => {
+                            let t = r.sel().and_then(|s| resolve_sel(w, s, None));
+                            model.gate_step(f, &what, *r, t.or(current));
+                            let _ = control.apply_action(action_of(*r, t));
                         }
                     }
                 }
@@ -1159,8 +1373,12 @@ pub fn run_lockstep(
             Event::Stop(stop) => {
                 nstops += 1;
                 let rec = StopRec::of(&stop);
-                let cycle = Some(shared.cycles.load(Ordering::SeqCst) as usize);
-                let p = match model.observe(&rec, cycle) {
+                let token = shared.cycles.load(Ordering::SeqCst) as usize;
+                let (cycle, exact) = match engine {
+                    Engine::Runtime => (Some(token), None),
+                    Engine::Hook => (None, Some(token)),
+                };
+                let p = match model.observe(&rec, cycle, exact) {
                     Ok(p) => p,
                     Err(e) => {
                         verdict = Err(e);
@@ -1288,8 +1506,15 @@ pub fn run_lockstep(
                 Ok(o) => o,
                 Err(_) => return Err("the cycle thread died".into()),
             };
-            check_transparency(w, &out)
-                .map_err(|e| format!("{e}\n--- script so far\n{}", trail(&model)))?;
+            if engine == Engine::Runtime {
+                check_transparency(w, &out)
+                    .map_err(|e| format!("{e}\n--- script so far\n{}", trail(&model)))?;
+            } else if let Some(p) = &out.panic {
+                return Err(format!(
+                    "the statement hook panicked: {p}\n--- script so far\n{}",
+                    trail(&model)
+                ));
+            }
             let mut labels = Vec::new();
             for (k, v) in &model.reasons {
                 if *v > 0 {
@@ -1326,7 +1551,15 @@ pub fn run_lockstep(
                 labels.push("lock:user_write".into());
             }
             if model.boundary_pauses > 0 {
-                labels.push("lock:pause_between_cycles".into());
+                labels.push("lock:pause_while_running_at_a_gate".into());
+            }
+            if model.running_steps > 0 {
+                labels.push("lock:step_while_running_at_a_gate".into());
+            }
+            if model.running_steps_at_call_entry > 0 {
+                labels.push(
+                    "lock:step_over_or_out_while_running_between_call_hook_and_callee_hook".into(),
+                );
             }
             if model.pause_origin_steps > 0 {
                 labels.push("lock:step_from_pause_stop".into());
@@ -1342,7 +1575,9 @@ pub fn run_lockstep(
             }
             Ok(Outcome::Done(Summary {
                 labels,
-                nontrivial: model.steps_at_depth > 0 || model.pause_origin_steps > 0,
+                nontrivial: model.steps_at_depth > 0
+                    || model.pause_origin_steps > 0
+                    || model.running_steps_at_call_entry > 0,
                 stops: nstops,
             }))
         }
